@@ -23,6 +23,7 @@ func runC13(c *vu.Case) {
 	var d *IpfsDHT
 	var emitter event.Emitter
 	streams := map[int]*simnet.Stream{}
+	conns := map[int]*simnet.Conn{}
 	inbound := map[int]bool{}
 	defer func() {
 		if emitter != nil {
@@ -95,7 +96,15 @@ func runC13(c *vu.Case) {
 			if f[2] == "out" {
 				cdir = network.DirOutbound
 			}
-			conn := h.Net().AddConn(vPeer(peerN), cdir, nil)
+			var conn *simnet.Conn
+			if len(f) > 4 && strings.HasPrefix(f[4], "on=") {
+				// one more stream on the connection that already carries stream `on` (its direction is that connection's)
+				conn = conns[atoi(strings.TrimPrefix(f[4], "on="))]
+			}
+			if conn == nil {
+				conn = h.Net().AddConn(vPeer(peerN), cdir, nil)
+			}
+			conns[id] = conn
 			if f[3] == "in" {
 				handler := h.Handler(vProto)
 				if handler == nil {
@@ -161,7 +170,12 @@ func genC13(r *vu.RNG, c *vu.Case) bool {
 			if r.Chance(1, 4) {
 				dir = "out"
 			}
-			c.In = append(c.In, fmt.Sprintf("open %d %s %s", next, conn, dir))
+			if next > 1 && r.Chance(1, 2) {
+				// share the connection of an earlier stream: connections carry several DHT streams of both directions
+				c.In = append(c.In, fmt.Sprintf("open %d %s %s on=%d", next, conn, dir, r.Range(1, next-1)))
+			} else {
+				c.In = append(c.In, fmt.Sprintf("open %d %s %s", next, conn, dir))
+			}
 			next++
 		default:
 			if next > 1 {
